@@ -138,6 +138,72 @@ def _worker(args):
     return d
 
 
+def _child(conn, args):
+    try:
+        conn.send(_worker(args))
+    except BaseException as e:      # noqa
+        try:
+            conn.send({'name': str(args[1].get('name')), 'results': [{'key': 'engine', 'unit': str(args[1].get('name')), 'status': 'error',
+                                                                       'detail': 'unit crashed: %r' % (e,), 'witness': None, 'replay': None, 'info': {}}],
+                       'paths': 0, 'decisions': 0, 'validated': 0, 'samples': [], 'notes': [], 'exhaustive': False, 'stats': smt.Stats().asdict(), 'wall_s': 0})
+        except Exception:
+            pass
+    finally:
+        conn.close()
+
+
+def _run_units(modname, units, tier, seed, procs, unit_timeout):
+    """one process per unit, at most `procs` at a time, hard wall-clock limit per unit (a unit that exceeds it is reported as
+    inconclusive and non-exhaustive, never as held)"""
+    import signal
+    ctxm = mp.get_context('fork')
+    pending = list(units)
+    running = {}
+    results = []
+    while pending or running:
+        while pending and len(running) < procs:
+            ud = pending.pop(0)
+            pc, cc = ctxm.Pipe(duplex=False)
+            p = ctxm.Process(target=_child, args=(cc, (modname, ud, tier, seed)))
+            p.daemon = False
+            p.start()
+            cc.close()
+            running[p.pid] = (p, pc, ud, time.time())
+        done = []
+        for pid, (p, pc, ud, t0) in running.items():
+            if pc.poll(0.02):
+                try:
+                    results.append(pc.recv())
+                except EOFError:
+                    results.append(_timeout_result(ud, 'unit process died'))
+                done.append(pid)
+            elif not p.is_alive():
+                results.append(_timeout_result(ud, 'unit process exited without a result'))
+                done.append(pid)
+            elif time.time() - t0 > unit_timeout:
+                try:
+                    os.killpg(os.getpgid(pid), 0)
+                except Exception:
+                    pass
+                p.kill()
+                results.append(_timeout_result(ud, 'unit exceeded its wall-clock budget of %.0f s and was stopped' % unit_timeout))
+                done.append(pid)
+        for pid in done:
+            p, pc, ud, t0 = running.pop(pid)
+            p.join(timeout=5)
+            pc.close()
+        if not done:
+            time.sleep(0.05)
+    return results
+
+
+def _timeout_result(ud, why):
+    name = str(ud.get('name', ud))
+    return {'name': name, 'results': [{'key': 'unit:%s' % name, 'unit': name, 'status': 'inconclusive', 'detail': why, 'witness': None, 'replay': None, 'info': {}}],
+            'paths': 0, 'decisions': 0, 'validated': 0, 'samples': [], 'notes': [why + ' (' + name + ')'], 'exhaustive': False,
+            'stats': smt.Stats().asdict(), 'wall_s': 0}
+
+
 def load_known(pid):
     path = os.path.join(VERIF, 'known_findings.json')
     if not os.path.exists(path):
@@ -170,14 +236,12 @@ def run_check(pid, tier, seed=0, procs=None):
     units = sorted(units, key=lambda d: -d.get('cost', 0))     # longest first (tail latency)
     procs = procs or min(16, max(1, len(units)))
     results = []
-    if procs == 1 or len(units) == 1 or os.environ.get('VERIF_SERIAL'):
+    unit_timeout = float(os.environ.get('VERIF_UNIT_TIMEOUT', getattr(mod, 'UNIT_TIMEOUT', {}).get(tier, 420 if tier == 'quick' else 2400)))
+    if os.environ.get('VERIF_SERIAL'):
         for ud in units:
             results.append(_worker((modname, ud, tier, seed)))
     else:
-        ctxm = mp.get_context('fork')
-        with ctxm.Pool(procs, maxtasksperchild=8) as pool:
-            for d in pool.imap_unordered(_worker, [(modname, ud, tier, seed) for ud in units], chunksize=1):
-                results.append(d)
+        results = _run_units(modname, units, tier, seed, procs, unit_timeout)
     results.sort(key=lambda d: d['name'])
     return finish(pid, tier, seed, mod, results, time.time() - t0)
 
